@@ -61,6 +61,8 @@ class FnTarget:
         self.closures = {}     # closure ordinal -> contract text for the k-th closure expression of the body
         self.params_to_let = False  # R8: destructuring closure parameters become a `let` at the head of the closure body
         self.map_to_match = set()   # R13: headers of closures whose `RECV.map(|p| body)` is written out as a match
+        self.let_chains = False  # R16: `if let P = e && c { body }` (no else) written as nested ifs
+        self.tfe = {}          # R15: closure header -> (loop spec text, ghost iterator name) for `RECV.try_for_each(|p| body)` written out as a loop
         self.omit = False
         self.canary = True
         self.opt_member = False  # `//@ fn? NAME`: the member may be absent from the impl/trait (skipped + recorded)
@@ -88,6 +90,7 @@ class Block:
         self.head_all = None   # head text for every fn of the block (a fn's own `head` is put after it)
         self.trait_decl_only = False  # R12 (`//@ decl-only`): a trait is emitted as declarations only (default bodies dropped, specs kept)
         self.params_to_let_all = False  # R8 for every fn of the block
+        self.let_chains_all = False  # R16 for every fn of the block
         self.impl_to_generic = False  # R11: `x: &impl Trait` parameters become a named type parameter
         self.as_spec = None    # R10: emit the selected fn a second time as `pub closed spec fn <as_spec>` (its spec twin)
 
@@ -225,6 +228,8 @@ class Assembler:
                         tgt.tail = text
                     elif kind == 'closure':
                         tgt.closures[cur_field[1]] = text
+                    elif kind == 'tfe':
+                        tgt.tfe[cur_field[1]] = (text, cur_field[2])
                     elif kind == 'hint-last':
                         tgt.hints.append(('#LAST ' + cur_field[1], text, False))
                     elif kind == 'hint':
@@ -356,6 +361,50 @@ class Assembler:
                             blk.cur.map_to_match.add(''.join(key_.split()))
                             if opt_:
                                 blk.cur.optional.add(('map-to-match', ''.join(key_.split())))
+                        elif d.startswith('try-for-each-to-loop? ') or d.startswith('try-for-each-to-loop '):
+                            # R15 (opt-in): `RECV.try_for_each(|p| body)`, addressed by the closure's parameter list `/|p|/`, is
+                            # written out by the definition of Iterator::try_for_each for a Result ("applies a fallible function
+                            # to each item, stopping at the first error and returning that error"):
+                            #   { let mut __rbv_tfe_r_N = Ok(()); let __rbv_tfe_v_N = RECV; let __rbv_tfe_f_N = rbv_tfe_typed_iter(&__rbv_tfe_v_N, |p| body);
+                            #     for __rbv_tfe_x_N in ITER: __rbv_tfe_v_N  <the text of this field: invariant .. ensures ..>
+                            #     { match __rbv_tfe_f_N(__rbv_tfe_x_N) { Ok(()) => {} Err(e) => { __rbv_tfe_r_N = Err(e); break; } } }
+                            #     __rbv_tfe_r_N }
+                            # (N = ordinal of the rewrite in the fn; ITER = `iter=NAME`, default __rbv_tfe_it_N).  A `.into_iter()` that
+                            # ends RECV is dropped (`for` applies it) and `let ghost __rbv_tfe_s_N = __rbv_tfe_v_N@;` names the items (for a
+                            # receiver that is an iterator: `= __rbv_tfe_v_N.remaining();`, vstd::std_specs::iter::IteratorSpec in scope).
+                            # `rbv_tfe_typed_iter` / `rbv_tfe_typed_vec` (units/verus/rbv_tfe.vui, included by the unit) are the identity on the
+                            # closure; they only give rustc the parameter type that try_for_each's signature gave it.
+                            # The closure keeps its own tokens (`closure` / `closure-params-to-let` apply to it as usual).  Verus has no
+                            # specification for try_for_each and refuses an assume_specification for a provided trait method.
+                            # In the field text `$r` `$f` `$s` `$v` stand for the generated names of result / closure / item sequence / receiver;
+                            # a line `@before` / `@after` starts ghost text put right before the loop / between the loop and the result.
+                            opt_ = d.startswith('try-for-each-to-loop? ')
+                            rest_ = d.split(None, 1)[1].strip()
+                            e_ = rest_.rindex('/') if '/' in rest_ else -1
+                            # `try-for-each-to-loop K` addresses the K-th closure of the fn instead (two calls whose closures read alike)
+                            if rest_.startswith('/'):
+                                key_, tail_ = _loop_key(rest_[:e_ + 1]), rest_[e_ + 1:]
+                            else:
+                                key_, tail_ = int(rest_.split()[0]), ' '.join(rest_.split()[1:])
+                            it_ = None
+                            for opt in tail_.split():
+                                if not re.match(r'^iter=[A-Za-z_]\w*$', opt):
+                                    raise UnitSyntax('line %d: bad try-for-each-to-loop option %r' % (i + 1, opt))
+                                it_ = opt[5:]
+                            if isinstance(key_, str):
+                                key_ = ''.join(key_.split())
+                            cur_field = ('tfe', key_, it_)
+                            if opt_:
+                                blk.cur.optional.add(('tfe', key_))
+                        elif d == 'let-chains-to-nested-if':
+                            # R16 (opt-in): an `if` WITHOUT else whose condition is a let-chain, `if let P = e && c && let Q = f { body }`,
+                            # is written as nested ifs, `if let P = e { if c { if let Q = f { body } } }` -- the definition of `&&` in a
+                            # condition (left to right, later conjuncts see the earlier bindings; an `if` without else has the value ()).
+                            # Refused (anchor lost) when an `else` follows.  Verus' front end rejects let-chains.
+                            if blk.cur is None:
+                                blk.let_chains_all = True
+                            else:
+                                blk.cur.let_chains = True
                         elif d == 'no-canary':
                             blk.cur.canary = False
                         elif d.startswith('as-spec '):
@@ -587,6 +636,8 @@ class Assembler:
             seen_loops = set()
             closure_no = 0
             seen_closures = set()
+            tfe_no = 0
+            seen_tfe = set()
             while k < b:
                 t = st[k]
                 if t.kind == 'ident' and t.text in LOOP_KW and not (t.text == 'for' and st[k + 1].text == '<'):
@@ -690,6 +741,35 @@ class Assembler:
                     if canary and (tgt is None or tgt.canary):
                         edits.append((st[j].end, st[j].end, '\nproof { assert(false); } // RBVERIF_CANARY\n'))
                         self.canaries += 1
+                elif (t.kind == 'ident' and t.text == 'if' and ((tgt and tgt.let_chains) or blk.let_chains_all)):
+                    # R16: let-chain `if` without else -> nested ifs (the tokens in between are scanned as usual afterwards)
+                    j = k + 1
+                    depth = 0
+                    splits, has_let = [], False
+                    while j < b:
+                        tt = st[j]
+                        if tt.kind == 'punct' and tt.text in '([':
+                            depth += 1
+                        elif tt.kind == 'punct' and tt.text in ')]':
+                            depth -= 1
+                        elif tt.kind == 'punct' and tt.text == '{' and depth == 0:
+                            break
+                        elif depth == 0 and tt.kind == 'ident' and tt.text == 'let':
+                            has_let = True
+                        elif (depth == 0 and tt.kind == 'punct' and tt.text == '&' and st[j + 1].text == '&' and st[j + 1].start == tt.end
+                              and (st[j - 1].kind in ('ident', 'num', 'str', 'char') or st[j - 1].text in (')', ']'))
+                              and st[j - 1].text not in ('return', 'in', 'if', 'let', 'mut')):
+                            splits.append(j)
+                            j += 1
+                        j += 1
+                    if has_let and splits and j < b:
+                        jc = match_close(st, j)
+                        if jc + 1 < len(st) and st[jc + 1].text == 'else':
+                            raise AnchorLost('R16: the let-chain `if` at %s:%d has an else branch' % (blk.relpath, src.line_of(t.start)))
+                        for p_ in splits:
+                            edits.append((st[p_].start, st[p_ + 1].end, '{ if '))
+                        edits.append((st[jc].end, st[jc].end, ' }' * len(splits)))
+                        self.rewrites.append('R16 %s:%d let-chain `if` (no else, %d conjuncts) written as nested ifs' % (blk.relpath, src.line_of(t.start), len(splits) + 1))
                 elif (t.text == '|' and t.kind == 'punct' and st[k - 1].text in ('(', ',', '=', 'move', 'return')
                       and not (st[k - 1].text == '=' and st[k - 2].text in ('=', '!', '<', '>', '|'))):
                     # a closure expression `|params| body` / `|| body` in argument or initializer position.
@@ -778,6 +858,67 @@ class Assembler:
                         tgt.map_to_match.discard(chdr)
                         k = pe + 1
                         continue
+                    tfe_close = None
+                    tkey = None
+                    if tgt and closure_no in tgt.tfe:
+                        tkey = closure_no
+                    elif tgt and chdr in tgt.tfe and st[k - 2].text == 'try_for_each':
+                        tkey = chdr
+                    if tkey is not None:
+                        # R15: RECV.try_for_each(|p| body) written out as a loop (see the directive); a header key applies to
+                        # every try_for_each of the fn whose closure reads like that
+                        if not (st[k - 1].text == '(' and st[k - 2].text == 'try_for_each' and st[k - 3].text == '.'):
+                            raise AnchorLost('closure %s of fn %s is not the argument of `.try_for_each(`' % (chdr, tgt.name))
+                        seen_tfe.add(tkey)
+                        tfe_no += 1
+                        kc = match_close(st, k - 1)
+                        r0 = k - 4
+                        rdepth = 0
+                        while r0 > a:
+                            tr = st[r0]
+                            if tr.kind == 'punct' and tr.text in ')]}':
+                                rdepth += 1
+                            elif tr.kind == 'punct' and tr.text in '([{':
+                                if rdepth == 0:
+                                    break
+                                rdepth -= 1
+                            elif rdepth == 0 and (tr.text in (';', ',', '=', '=>', 'return')):
+                                break
+                            r0 -= 1
+                        r0 += 1
+                        last = kc - 1
+                        if st[last].text == ',':
+                            last -= 1
+                        ftext, itname = tgt.tfe[tkey]
+                        nr, nv, nf, nx, ns = ('__rbv_tfe_%s_%d' % (c_, tfe_no) for c_ in 'rvfxs')
+                        itname = itname or '__rbv_tfe_it_%d' % tfe_no
+                        into_iter = [x.text for x in st[k - 7:k - 3]] == ['.', 'into_iter', '(', ')'] and k - 7 > r0
+                        edits.append((st[r0].start, st[r0].start, '{ let mut %s = Ok(()); let %s = ' % (nr, nv)))
+                        if into_iter:
+                            edits.append((st[k - 7].start, st[k - 1].end, '; let ghost %s = %s@; let %s = rbv_tfe_typed_vec(&%s, ' % (ns, nv, nf, nv)))
+                        else:
+                            edits.append((st[k - 3].start, st[k - 1].end, '; let ghost %s = %s.remaining(); let %s = rbv_tfe_typed_iter(&%s, ' % (ns, nv, nf, nv)))
+                        for ph_, nm_ in (('$r', nr), ('$v', nv), ('$f', nf), ('$s', ns)):
+                            ftext = ftext.replace(ph_, nm_)
+                        # optional sections of the field text: a line `@before` / `@after` starts ghost text that is put right
+                        # before the generated loop / between its closing brace and the result expression
+                        sect_ = {'spec': [], 'before': [], 'after': []}
+                        cur_ = 'spec'
+                        for ln_ in ftext.split('\n'):
+                            if ln_.strip() in ('@before', '@after'):
+                                cur_ = ln_.strip()[1:]
+                            else:
+                                sect_[cur_].append(ln_)
+                        ftext, fbefore, fafter = ('\n'.join(sect_[x_]) for x_ in ('spec', 'before', 'after'))
+                        cny = ''
+                        if canary and tgt.canary:
+                            cny = '\nproof { assert(false); } // RBVERIF_CANARY\n'
+                            self.canaries += 1
+                        tfe_close = (st[last].end, st[kc].end,
+                                     ');\n%s\nfor %s in %s: %s\n%s\n{%s match %s(%s) { Ok(()) => {} Err(__rbv_tfe_e) => { %s = Err(__rbv_tfe_e); break; } } }\n%s\n%s }'
+                                     % (fbefore, nx, itname, nv, ftext, cny, nf, nx, nr, fafter, nr))
+                        self.rewrites.append('R15 %s:%d closure #%d of fn %s: `RECV.try_for_each(%s body)` written out as a loop that stops at the first Err (definition of Iterator::try_for_each)%s'
+                                             % (blk.relpath, src.line_of(t.start), closure_no, tgt.name, chdr, '; trailing .into_iter() of RECV dropped' if into_iter else ''))
                     # R8 (opt-in, `//@ closure-params-to-let`): a closure parameter that is a destructuring pattern,
                     # `|S { f, .. }| body`, is moved into a `let` at the head of the body:
                     # `|__rbv_pN| { let S { f, .. } = __rbv_pN; body }` -- the definition of a pattern parameter
@@ -858,6 +999,8 @@ class Assembler:
                                 q += 1
                             edits.append((st[pe].end, st[pe].end, (pre if pre else ' ') + '{' + lets))
                             edits.append((st[q - 1].end, st[q - 1].end, ' }'))
+                    if tfe_close is not None:
+                        edits.append(tfe_close)
                     k = pe + 1
                     continue
                 elif t.kind == 'ident' and k + 2 < b and st[k + 1].text == '!' and st[k + 2].text in ('(', '[', '{'):
@@ -884,7 +1027,12 @@ class Assembler:
                         else:
                             # in statement position (`panic!(..);`) the type parameter cannot be inferred: say `()`
                             stmt_pos = kc + 1 < len(st) and st[kc + 1].text == ';'
+                            # `panic!(..);` as the LAST statement of a block that must yield a value (`_ => { panic!(..); }` in a
+                            # match of type T): `unreached::<()>();` would give the block the type (); `return unreached();` has the
+                            # type `!` like the panic (its type parameter is the return type of the enclosing fn / closure)
+                            last_stmt = stmt_pos and kc + 2 < len(st) and st[kc + 2].text == '}'
                             edits.append((t.start, st[kc].end,
+                                          'return vstd::pervasive::unreached()' if last_stmt else
                                           'vstd::pervasive::unreached::<()>()' if stmt_pos else 'vstd::pervasive::unreached()'))
                             self.rewrites.append('R2 %s:%d %s! -> unreached()' % (blk.relpath, src.line_of(t.start), t.text))
                         k = kc + 1
@@ -933,6 +1081,9 @@ class Assembler:
                     if ('map-to-match', n) in tgt.optional:
                         continue
                     raise AnchorLost('fn %s has no `.map(%s ..)` in %s' % (tgt.name, n, blk.relpath))
+                for n in tgt.tfe:
+                    if n not in seen_tfe and ('tfe', n) not in tgt.optional:
+                        raise AnchorLost('fn %s has no `.try_for_each(%s ..)` in %s' % (tgt.name, n, blk.relpath))
                 for n in tgt.closures:
                     if n not in seen_closures and ('closure', n) not in tgt.optional:
                         raise AnchorLost('fn %s has no closure #%s (found %d) in %s' % (tgt.name, n, closure_no, blk.relpath))
